@@ -50,7 +50,7 @@ Definition max_int : N := 9223372036854775807.
 (* strconv.Atoi on a string that contains no '-', followed by the [gen < 1] test of parseRevID:
    optional '+', at least one decimal digit, no other character, value in 1 .. 2^63-1 *)
 Definition atoi_pos (s : list N) : option N :=
-  let body := match s with 43 :: r => r | _ => s end in
+  let body := match s with c :: r => if c =? 43 then r else s | [] => s end in
   match body with
   | [] => None
   | _ => match digits_val 0 body with
@@ -59,26 +59,46 @@ Definition atoi_pos (s : list N) : option N :=
          end
   end.
 
-(* parseRevID: None = error *)
-Definition parse_revid (s : list N) : option (N * list N) :=
-  match split_dash s with
-  | None => None
-  | Some (p, d) => match atoi_pos p with Some g => Some (g, d) | None => None end
+(* One switch for the two repairs made to /repo after this model exposed the defects
+   (commit 140db63: parseRevID rejects a generation whose text is not strconv.Itoa(gen);
+    commit ac6ea40: documentUpdateFunc recomputes Branched after pruneRevisions pruned something).
+   [true] = the repaired code (what the correspondence runs against); the old behaviour stays
+   reachable through the [_gen false] functions for the witnesses in C04_Refuted.v. *)
+Definition code_fixed : bool := true.
+
+(* strconv.Itoa(gen) == revid[:idx], given that Atoi accepted the prefix with a value >= 1:
+   no '+' sign and no leading '0' *)
+Definition canonical_prefix (p : list N) : bool :=
+  match p with
+  | [] => false
+  | c :: _ => negb (c =? 43) && negb (c =? 48)
   end.
 
+(* parseRevID: None = error *)
+Definition parse_revid_gen (fx : bool) (s : list N) : option (N * list N) :=
+  match split_dash s with
+  | None => None
+  | Some (p, d) => match atoi_pos p with
+                   | Some g => if fx && negb (canonical_prefix p) then None else Some (g, d)
+                   | None => None
+                   end
+  end.
+Definition parse_revid : list N -> option (N * list N) := parse_revid_gen code_fixed.
+
 (* ParseRevID: "" -> (0,""), error -> (-1,"") *)
-Definition parse_pub (s : list N) : Z * list N :=
+Definition parse_pub_gen (fx : bool) (s : list N) : Z * list N :=
   match s with
   | [] => (0%Z, [])
-  | _ => match parse_revid s with Some (g, d) => (Z.of_N g, d) | None => ((-1)%Z, []) end
+  | _ => match parse_revid_gen fx s with Some (g, d) => (Z.of_N g, d) | None => ((-1)%Z, []) end
   end.
 
 (* compareRevIDs on the textual form *)
-Definition cmp_raw (a b : list N) : Z :=
-  let (g1, d1) := parse_pub a in
-  let (g2, d2) := parse_pub b in
+Definition cmp_raw_gen (fx : bool) (a b : list N) : Z :=
+  let (g1, d1) := parse_pub_gen fx a in
+  let (g2, d2) := parse_pub_gen fx b in
   if (g2 <? g1)%Z then 1%Z
   else if (g1 <? g2)%Z then (-1)%Z
   else match cmp_dig d1 d2 with Gt => 1%Z | Lt => (-1)%Z | Eq => 0%Z end.
+Definition cmp_raw : list N -> list N -> Z := cmp_raw_gen code_fixed.
 
 Definition cmp_to_Z (c : comparison) : Z := match c with Gt => 1%Z | Lt => (-1)%Z | Eq => 0%Z end.
